@@ -124,7 +124,9 @@ func DifferentialOut(args []string, stdin string, files map[string]string, outFl
 	if r.Panicked() {
 		return fmt.Errorf("command crashed%s: %s", ctx, clipS(r.Stderr))
 	}
-	reported := r.Code != 0 || strings.Contains(r.Stderr, "[Error]")
+	// the commands checked this way return their error to the caller (cobra RunE): a failure is
+	// reported through a non-zero exit status, not only through a message on stderr
+	reported := r.Code != 0
 	if lerr != nil {
 		if !reported {
 			return fmt.Errorf("the library call fails (%v) but the command reports no error and prints %q%s", lerr, clipS(r.Stdout), ctx)
